@@ -492,7 +492,12 @@ fn one_case(t: i32, i: usize, ctx: &Ctx, rep: &mut Report) {
                 }
                 rep.count("failed_write_histories_judged", 1);
             }
-            _ => rep.count("failed_write_histories_not_judged(file does not hold exactly the accepted shapes)", 1),
+            Ok(Some(b)) => {
+                rep.count(if j == 0 { "failed_write_histories_not_judged(the failure hit the very first operation of the writer; file does not hold exactly the accepted shapes)" } else { "failed_write_histories_not_judged(file does not hold exactly the accepted shapes)" }, 1);
+                let _ = b;
+            }
+            Ok(None) => rep.count("failed_write_histories_not_judged(an accepted write or the finalize reported an error, or the planned failure was not reported)", 1),
+            Err(_) => rep.count("failed_write_histories_not_judged(panic; C12 judges those)", 1),
         }
     }
     rep.nontrivial(&format!("{}:{}:{}:{}:{}", t, n, at_str(lo_at), regime, dumps.iter().map(|d| d.npoints()).sum::<usize>()));
